@@ -437,6 +437,18 @@ pub fn gen(seed: u64, tier: &str) -> Vec<String> {
         let b = build_bch(&texs, compat, &mut rng, true);
         next(&mut lines, format!("read bch {} {}", hex(&b.file), tex_fields(&texs, &b)));
     }
+    // 2b. minimal BCH files: no textures, the content table overlapping the unused tail of the header, the
+    //     file ending with the last defined byte (header length matters: 56 bytes up to compat 20, 64 above 0x20)
+    for (compat, contents, len) in [(0u8, 16usize, 60usize), (20, 16, 60), (20, 12, 56), (0x21, 20, 64), (0xFF, 24, 68), (0x21, 8, 64)] {
+        let mut f = rng.bytes(len);
+        put(&mut f, 0, b"BCH\0");
+        f[4] = compat;
+        put32(&mut f, 8, contents as u32);
+        put32(&mut f, contents + 0x24, rng.below(0x1000) as u32);
+        put32(&mut f, contents + 0x28, 0);
+        next(&mut lines, format!("read bch {} 0", hex(&f)));
+        next(&mut lines, format!("prefixes bch {} 0", hex(&f)));
+    }
     // 3. wrong magic (BCH, CGFX, TPL; CTPK has no magic check): every single-byte change of the magic
     for kind in ["bch", "cgfx", "tpl", "ctpk"] {
         let texs: Vec<Tex> = (0..2).map(|_| if kind == "tpl" { gen_tex_tpl(&mut rng, false) } else { gen_tex_3ds(&mut rng, kind == "ctpk", false) }).collect();
